@@ -1303,7 +1303,9 @@ func (w *responseWriter) close() {
 		w.WriteHeader(http.StatusOK)
 	}
 	if w.w != nil {
-		_, _ = w.w.Write(nil) // trigger any final writes
+		if w.err == nil {
+			_, _ = w.w.Write(nil) // trigger any final writes
+		}
 		_ = w.w.Close()
 	}
 	if w.endWritten {
@@ -1477,7 +1479,7 @@ func (w *envelopingWriter) Close() error {
 		}
 		defer w.rw.op.bufferPool.Put(buf)
 	}
-	if w.remainingBytes == -1 && w.mustReleaseCurrent && w.err == nil {
+	if w.remainingBytes == -1 && w.mustReleaseCurrent && w.err == nil && !w.rw.endWritten {
 		length := buf.Len()
 		if limit := int(w.rw.op.methodConf.maxMsgBufferBytes); length > limit {
 			w.err = bufferLimitError(int64(limit))
